@@ -159,7 +159,7 @@ P = {
   tech="Coq proof over executable Gallina model (filters + major ILP rows) + differential and metamorphic correspondence (vm_compute)"),
  "C16": dict(
   text="Theorems over VcfIn.v: Fixed = Coverage.coverage/total as the property states them (allele uses of diploid records): support proportional "
-       "to alternate copies and reference reduced accordingly for substitution, deletion, insertion, MNP as one record and as adjacent records; "
+       "to alternate copies and reference reduced accordingly for substitution, deletion, insertion, and a catalogued multi-substitution both as one record (gaps filled with the gene's bases, or any REF/ALT that differs from the gene exactly at its components) and as adjacent single-base records - stated about the FILE for every gene view and every catalogued multi-substitution (C16_vcf_support_mnp_one_record/_any_record/_adjacent, C16_mnp_writings_agree; decidable premises mnp_record_ok/adj_ok evaluated on every multi-substitution of every gene used); "
        "absent sites homozygous reference; REF-mismatch re-expression; non-diploid/missing/N-position/other-shape records change nothing; "
        "AsShipped = _load_vcf + _make_coverage + Coverage.__init__ step by step, REFUTED by witnesses for insertions and both MNP spellings (open "
        "findings); with the repair 55bf4fc inexpressible alleles are ignored (theorem). " + TIE + "Generated bgzipped+tabixed VCFs (1-3 samples, "
